@@ -1111,27 +1111,21 @@ def pair_cases(rng, tier):
 def impl_pair(case):
     quiet_ccp()
     parses = []
-    for c in case["cfgs"]:
+    for i, c in enumerate(case["cfgs"]):
+        # (auto_commit is left at its default unless an uncommitted insert is to stay pending on this instance)
+        pend = any(s.get("pend") for s, j in zip(case["subs"], case["plan"]) if j == i)
         try:
-            parses.append(T.parse_impl(dict(c, factory=False, auto_commit=False)))
+            parses.append(T.parse_impl(dict(c, factory=False, auto_commit=False if pend else None)))
         except BaseException as e:  # noqa: BLE001
+            if type(e).__name__ == "CaseTimeout":
+                raise
             return "parse-err:" + type(e).__name__
     tags = PL.tags_for([s["req"] for s in case["subs"]])
     parts = []
     for k, sub in enumerate(case["subs"]):
         sub["omit"] = case.get("omit")
         p = parses[case["plan"][k]]
-        objs = list(p.objs)
-        dump = "|".join([T.lnums([o.parent for o in objs]), ";".join(T.lnums(o.children) for o in objs)])
-        try:
-            if sub.get("pend"):
-                p.config_objs.insert(min(sub.get("pend_at", 0), len(objs)), sub.get("pend_text", " zz"))
-            ans = run_query(p, sub, objs)
-        except BaseException as e:  # noqa: BLE001
-            if type(e).__name__ == "CaseTimeout":
-                raise
-            ans = "err:" + type(e).__name__
-        parts.append((tags[k], dump + "&" + ans + "&" + wire.enc_strs([o.text for o in objs])))
+        parts.append((tags[k], observe(p, sub)))
     return PL.join_parts(parts)
 
 
@@ -1213,3 +1207,18 @@ def describe(case):  # noqa: F811
 
 def buckets(case, ans):  # noqa: F811
     return _pair_buckets(case, ans) if case.get("pair") else _single["buckets"](case, ans)
+
+
+def observe(p, sub):
+    """the answer of impl() for the query of `sub`, asked of an instance that is already parsed"""
+    objs = list(p.objs)
+    dump = "|".join([T.lnums([o.parent for o in objs]), ";".join(T.lnums(o.children) for o in objs)])
+    try:
+        if sub.get("pend"):                      # an uncommitted ConfigList.insert(): search_safe is False from here on
+            p.config_objs.insert(min(sub.get("pend_at", 0), len(objs)), sub.get("pend_text", " zz"))
+        ans = run_query(p, sub, objs)
+    except BaseException as e:  # noqa: BLE001
+        if type(e).__name__ == "CaseTimeout":
+            raise
+        ans = "err:" + type(e).__name__
+    return dump + "&" + ans + "&" + wire.enc_strs([o.text for o in objs])
